@@ -160,47 +160,47 @@ Definition children (ko : korder) (n : node) : list node :=
   | _ => []
   end.
 
-(* recursion budget of the tree walkers: twice the height (the model wraps the
+(* recursion budget of the tree walkers: twice the node_height (the model wraps the
    bodies of plural cases in a ListNode of its own) *)
-Fixpoint height (n : node) : nat :=
-  let hl := fix hl (l : list node) : nat := match l with [] => O | x :: r => Nat.max (height x) (hl r) end in
-  let hm := fix hm (l : list (bstr * node)) : nat := match l with [] => O | (_, x) :: r => Nat.max (height x) (hm r) end in
-  let ho := fun (o : option node) => match o with Some x => height x | None => O end in
+Fixpoint node_height (n : node) : nat :=
+  let hl := fix hl (l : list node) : nat := match l with [] => O | x :: r => Nat.max (node_height x) (hl r) end in
+  let hm := fix hm (l : list (bstr * node)) : nat := match l with [] => O | (_, x) :: r => Nat.max (node_height x) (hm r) end in
+  let ho := fun (o : option node) => match o with Some x => node_height x | None => O end in
   S (match n with
      | NFunc _ _ args => hl args
      | NListLit _ items => hl items
      | NMapLit _ items => hm items
      | NDataRef _ _ acc => hl acc
-     | NAccExpr _ _ a => height a
-     | NNot _ a => height a
-     | NNeg _ a => height a
-     | NBin _ _ a1 a2 => Nat.max (height a1) (height a2)
-     | NTern _ a1 a2 a3 => Nat.max (height a1) (Nat.max (height a2) (height a3))
+     | NAccExpr _ _ a => node_height a
+     | NNot _ a => node_height a
+     | NNeg _ a => node_height a
+     | NBin _ _ a1 a2 => Nat.max (node_height a1) (node_height a2)
+     | NTern _ a1 a2 a3 => Nat.max (node_height a1) (Nat.max (node_height a2) (node_height a3))
      | NList _ ns => hl ns
-     | NPrint _ arg dirs => Nat.max (height arg) (hl dirs)
+     | NPrint _ arg dirs => Nat.max (node_height arg) (hl dirs)
      | NDirective _ _ args => hl args
      | NCss _ e _ => ho e
-     | NLog _ body => height body
+     | NLog _ body => node_height body
      | NIf _ conds => hl conds
-     | NIfCond _ c body => Nat.max (ho c) (height body)
-     | NFor _ _ l body ie => Nat.max (height l) (Nat.max (height body) (ho ie))
-     | NSwitch _ v cases => Nat.max (height v) (hl cases)
-     | NSwitchCase _ vals body => Nat.max (hl vals) (height body)
+     | NIfCond _ c body => Nat.max (ho c) (node_height body)
+     | NFor _ _ l body ie => Nat.max (node_height l) (Nat.max (node_height body) (ho ie))
+     | NSwitch _ v cases => Nat.max (node_height v) (hl cases)
+     | NSwitchCase _ vals body => Nat.max (hl vals) (node_height body)
      | NCall _ _ _ data params => Nat.max (ho data) (hl params)
-     | NParamValue _ _ v => height v
-     | NParamContent _ _ c => height c
-     | NLetValue _ _ e => height e
-     | NLetContent _ _ body => height body
+     | NParamValue _ _ v => node_height v
+     | NParamContent _ _ c => node_height c
+     | NLetValue _ _ e => node_height e
+     | NLetContent _ _ body => node_height body
      | NMsg _ _ _ _ body => hl body
-     | NMsgPlaceholder _ _ body => height body
-     | NMsgPlural _ _ v cases dflt => Nat.max (height v) (Nat.max (hl cases) (hl dflt))
+     | NMsgPlaceholder _ _ body => node_height body
+     | NMsgPlural _ _ v cases dflt => Nat.max (node_height v) (Nat.max (hl cases) (hl dflt))
      | NMsgPluralCase _ _ body => hl body
-     | NTemplate _ _ body _ _ => height body
+     | NTemplate _ _ body _ _ => node_height body
      | NSoyDoc _ ps => hl ps
      | NHeaderParam _ _ _ _ d => ho d
      | _ => O
      end).
-Definition walk_fuel (n : node) : nat := (2 * height n + 2)%nat.
+Definition walk_fuel (n : node) : nat := (2 * node_height n + 2)%nat.
 
 (* ------------------------------------------------------------------ *)
 (* template/registry.go: Add (after the I9 repair)                    *)
@@ -684,7 +684,7 @@ Inductive cerr :=
 | EParse (file msg : bstr)
 | EAdd (file : bstr) (e : add_err)
 | ECheck (tmpl : bstr) (e : check_err)                   (* template %v: ... *)
-| EGlobal (tmpl : bstr) (e : global_err).                (* template %v: global %q is undefined *)
+| EGlobalErr (tmpl : bstr) (e : global_err).                (* template %v: global %q is undefined *)
 
 Inductive cresult (A : Type) := COk (a : A) | CErr (e : cerr).
 Arguments COk {A} a.
@@ -734,7 +734,7 @@ Section Compile.
             | Some (name, e) => CErr (ECheck name e)
             | None =>
                 match first_failure (set_globals_template (o_children o) (bg_map bg)) ts with
-                | Some (name, e) => CErr (EGlobal name e)
+                | Some (name, e) => CErr (EGlobalErr name e)
                 | None =>
                     COk {| cp_reg := cr_reg r; cp_soyfiles := cr_soyfiles r; cp_globals := bg_map bg;
                            cp_msgs := map (fun t => (t_name t, template_msgs node_string (o_children o) (o_ph o) t)) ts |}
